@@ -127,7 +127,7 @@ func flagsDrive(args []string) int {
 	fs.Parse(args)
 	rng := rand.New(rand.NewSource(*seed))
 	w := json.NewEncoder(os.Stdout)
-	keys := []string{"a", "b", "c", "a.b", "a.c", "b.0", "b.1", "a.b.c", "l", "l.2"}
+	keys := []string{"a", "b", "c", "a.b", "a.c", "b.0", "b.1", "a.b.c", "l", "l.2", "0", "1.x", "2"}
 	vals := []string{"1", "x", "true", "null", "1,2", "[3]", "[x,y,z]", "{b:1}", "{c:{a:2}}", "{b.c:1}", "", "[", "\"q", "'s'", " 7 ", "-4", "1.5", "[1,[2]]", "{a:[1]}"}
 	pols := []string{"default", "default", "append", "prepend", "replace", "arrreplace"}
 	for i := 0; i < *n; i++ {
